@@ -9,7 +9,7 @@ import (
 func init() {
 	register(&PropRule{
 		ID:    "C40",
-		Roots: []string{"./control/drkey/grpc"},
+		Roots: []string{"./control/drkey/grpc", "./pkg/connect"},
 		Explain: "Decides: each DRKey RPC reaches its Engine.Derive*/Get* call only after its validator " +
 			"succeeded on the very metadata that is then derived from, with the server's local ISD-AS " +
 			"and the gRPC peer address; the complete decision tables of validateASHostReq, " +
@@ -60,6 +60,7 @@ func init() {
 
 func runC40(c *Ctx) {
 	c40Converters(c)
+	c40PeerIsTransport(c)
 	requireStateless(c, "M1-no-state-between-requests",
 		"(*control/drkey/grpc.Server).DRKeyLevel1", "(*control/drkey/grpc.Server).DRKeyIntraLevel1",
 		"(*control/drkey/grpc.Server).DRKeyASHost", "(*control/drkey/grpc.Server).DRKeyHostAS",
